@@ -594,6 +594,10 @@ def generated_tables(ctx, table_src=None, results_src=None):
     for f in gen.glob(name + '.*'):
         if f.suffix != '.v':
             f.unlink()
+    try:
+        v.replace(gen / 'ExtCodes.v')        # keep the last generated table for inspection
+    except OSError:
+        pass
     if rc != 0 or 'Closed under the global context' not in out:
         ctx.broken.append('T-tables: the ITERATION codes used by ExtTable / _get_iter_df are not the designated ones '
                           f'(source has {flat}, _get_iter_df {codes["_get_iter_df"]}): ' + out[-300:])
